@@ -162,6 +162,27 @@ theorem killed_pool_balances {sp sp' : SP} {slash : F64} (h : spKill sp slash = 
     · rw [he]; exact hj
     · exact slashPools_none hs j hj
 
+/-- **slashing never adds stake**: when the clamped factor `1 − slash` is a finite number in `[0, 1]` (true of every
+valid setting: `example` below for 0.25 and 0.5) and the balances are below 2^53 (the token supply is 4·10^18 < 2^62, a
+delegate's stake at most `max_stake` = 2·10^14 < 2^53), no delegate balance grows. -/
+theorem slash_never_increases {sp sp' : SP} {slash : F64} (h : spKill sp slash = .ok sp') (m E : Nat)
+    (hred : reduction slash = .fin false m E) (hle : m * 2 ^ E ≤ 2 ^ 1074)
+    (hb : ∀ j d, kvGet sp.pools j = some d → d.balance < 2 ^ 53) :
+    ∀ j d d', kvGet sp.pools j = some d → kvGet sp'.pools j = some d' → d'.balance ≤ d.balance := by
+  intro j d d' hd hd'
+  obtain ⟨_, hp, _⟩ := killed_pool_balances h
+  obtain ⟨b, hb1, hb2⟩ := hp j d hd
+  rw [hb1] at hd'
+  injection hd' with hd'
+  subst hd'
+  simp only
+  split at hb2
+  · rw [hb2]; exact Nat.le_refl _
+  · obtain ⟨n, hn, hle'⟩ := multFloat64_le d.balance (hb j d hd) m E hle
+    rw [hred, hn] at hb2
+    injection hb2 with hb2
+    rw [← hb2]; exact hle'
+
 theorem disabled_of_txn {s' : State} {a : Ledger.Accts} {k : Kind} {i : Id} {p' : Prov} {sp' : SP} {f : Bool}
     (h : Disabled s' k i p' sp' f) : Disabled { s' with accts := a } k i p' sp' f := h
 
@@ -251,6 +272,10 @@ theorem shutdown_disable_effect_false :
     kvGet s0.sps (.blobber, 50) = none ∧
     kvGet (shutdownTxn cfg0 .blobber s0 ⟨50, 30⟩).1.sps (.blobber, 50) = some sp0Dead := by
   decide +kernel
+
+example : reduction half = .fin false (2 ^ 52) 1021 ∧ 2 ^ 52 * 2 ^ 1021 ≤ 2 ^ 1074 := by decide +kernel
+example : ∃ m E, reduction (halfSlash cfg0) = .fin false m E ∧ m * 2 ^ E ≤ 2 ^ 1074 :=
+  ⟨3 * 2 ^ 51, 1021, by decide +kernel⟩
 
 /-- non-vacuity of `kill_disable_effect` / `shutdownK_disable_effect` on the same state. -/
 example : spKill sp0 (halfSlash cfg0) = .ok sp0Dead := by decide +kernel
